@@ -19,6 +19,13 @@ CLAIMED = {
     ),
 }
 
+CLAIMED["C10"] = dict(
+    technique="static non-interference: dominance of reset_state (must-flow), complement-deletion idiom recognition, retained-key classification against the I/O module's store set, effect analysis (writes to module/class/default-argument/function-attribute state) over the call-graph closure of parse_stream, byte-alignment events from StateFlow",
+    text="Shows that nothing but the I/O position and the output callback can flow from one sequence to the next: all paths, all histories, for the validator's own code. Does not decide the behaviour of the callback, the file object, or value-level equality of outputs.",
+    note="Trusted: name-based call graph (over-approximate); mutation is recognised through the enumerated syntactic forms (subscript/attribute stores, del, 17 mutator method names, global/nonlocal); a positive fixture guards the zero-expected rule.",
+    ref="DESIGN.md 4/C10",
+)
+
 NOT_APPLICABLE = {
     "C12": "arithmetic over unbounded integers (quantisation error bounds, monotonicity of a rational formula): no structural clause; needs algebra/solver or execution",
     "C13": "partition/telescoping identities of floor arithmetic on runtime sizes; the functions are spec-pinned arithmetic with nothing to decide from code shape",
